@@ -47,6 +47,7 @@ type Action struct {
 	Service   string   `json:"service,omitempty"`  // service name
 	Provider  string   `json:"provider,omitempty"` // hex
 	Deposit   *int64   `json:"deposit,omitempty"`  // nil => empty coin list
+	DepDenom  string   `json:"dep_denom,omitempty"` // denomination of the deposit ("" = stake)
 	Pricing   string   `json:"pricing,omitempty"`
 	QoS       uint64   `json:"qos,omitempty"`
 	Options   string   `json:"options,omitempty"`
@@ -122,6 +123,15 @@ func coinsOf(p *int64) sdk.Coins {
 	return sdk.Coins{sdk.Coin{Denom: "stake", Amount: sdk.NewInt(*p)}}
 }
 
+// depOf: the deposit of a bind / update / enable, in the denomination the action names
+func (a Action) depOf() sdk.Coins {
+	c := coinsOf(a.Deposit)
+	if c != nil && a.DepDenom != "" {
+		c[0].Denom = a.DepDenom
+	}
+	return c
+}
+
 // capOf: the fee cap of a call / context update, in the denomination the action names
 func (a Action) capOf() sdk.Coins {
 	c := coinsOf(a.FeeCap)
@@ -149,15 +159,15 @@ func (a Action) Msg() sdk.Msg {
 	case KDefine:
 		return types.NewMsgDefineService(a.Service, a.Desc, a.Tags, addr(a.Signer), "", a.Schemas)
 	case KBind:
-		return types.NewMsgBindService(a.Service, addr(a.Provider), coinsOf(a.Deposit), a.Pricing, a.QoS, a.Options, addr(a.Signer))
+		return types.NewMsgBindService(a.Service, addr(a.Provider), a.depOf(), a.Pricing, a.QoS, a.Options, addr(a.Signer))
 	case KUpdateBind:
-		return types.NewMsgUpdateServiceBinding(a.Service, addr(a.Provider), coinsOf(a.Deposit), a.Pricing, a.QoS, a.Options, addr(a.Signer))
+		return types.NewMsgUpdateServiceBinding(a.Service, addr(a.Provider), a.depOf(), a.Pricing, a.QoS, a.Options, addr(a.Signer))
 	case KSetWithdr:
 		return types.NewMsgSetWithdrawAddress(addr(a.Signer), addr(a.Withdraw))
 	case KDisable:
 		return types.NewMsgDisableServiceBinding(a.Service, addr(a.Provider), addr(a.Signer))
 	case KEnable:
-		return types.NewMsgEnableServiceBinding(a.Service, addr(a.Provider), coinsOf(a.Deposit), addr(a.Signer))
+		return types.NewMsgEnableServiceBinding(a.Service, addr(a.Provider), a.depOf(), addr(a.Signer))
 	case KRefundDep:
 		return types.NewMsgRefundServiceDeposit(a.Service, addr(a.Provider), addr(a.Signer))
 	case KCall:
